@@ -131,6 +131,9 @@ type Gen struct {
 }
 
 func (g *Gen) add(kind, text string, recs ...Rec) {
+	if recs == nil {
+		recs = []Rec{}
+	}
 	g.Lines = append(g.Lines, Line{Text: hlib.Ints([]byte(text)), Recs: recs, Kind: kind})
 	for _, r := range recs {
 		g.Types[r.Type] = true
